@@ -33,7 +33,37 @@ PY
 cat > build/overlay.json <<JSON
 {"Replace": {"$SRC": "$DST"}}
 JSON
+# For the race-detector build (C18) sync.Pool is replaced by an implementation that never
+# keeps anything: Get returns New(), Put drops. That is an admissible Pool (it may drop any
+# item at any time) and removes the happens-before edges - created at random, because the
+# race build drops one Put in four - that pooled objects passing from one call to another
+# would otherwise add, which would make race detection depend on the history of the process.
+cat > build/sync_pool.go <<'GO'
+package sync
+
+// A Pool that keeps nothing (verification build only; see /verif/setup.sh).
+type Pool struct {
+	noCopy noCopy
+
+	// New optionally specifies a function to generate a value when Get would otherwise return nil.
+	New func() any
+}
+
+// Put drops x.
+func (p *Pool) Put(x any) {}
+
+// Get returns New() or nil.
+func (p *Pool) Get() any {
+	if p.New != nil {
+		return p.New()
+	}
+	return nil
+}
+GO
+cat > build/overlay_race.json <<JSON
+{"Replace": {"$SRC": "$DST", "$GOROOT_DIR/src/sync/pool.go": "$PWD/build/sync_pool.go"}}
+JSON
 cp /repo/go.sum mc/go.sum
 (cd mc && go build -tags verif -overlay ../build/overlay.json -o ../build/mc . )
-(cd mc && go build -race -tags verif -overlay ../build/overlay.json -o ../build/mc_race . )
+(cd mc && go build -race -tags verif -overlay ../build/overlay_race.json -o ../build/mc_race . )
 echo "setup ok"
